@@ -317,6 +317,7 @@ def main(argv):
             mout = None
     tdis = 0
     hangs = 0
+    fails = 0
     for i, (width, keep, delims, child, inp) in enumerate(tcases):
         argv = [tool, "-w", str(width)]
         if not keep:
@@ -324,9 +325,11 @@ def main(argv):
         if delims is not None:
             argv += ["-d", "".join(chr(x) for x in delims)]
         argv.append(os.path.join(CHILDREN, "child_%s.py" % child))
-        if hangs >= 3:
-            break
+        if hangs >= 3 or fails >= 12:
+            break                      # enough evidence; do not burn minutes on a tool that is clearly broken
         st, so, se = run_limited(argv, stdin=inp, timeout=10, mem_mb=2048)
+        if st != 0:
+            fails += 1
         c.count(("tool", width, keep, tuple(delims or ()), child, inp), nontrivial=len(inp) > 0, bucket="tool/" + child)
         rep = {"op": "tool", "argv": argv[1:-1] + ["child_%s.py" % child], "stdin_hex": hx(inp), "stdin": inp.decode("utf-8", "replace"),
                "status": st, "stdout_hex": hx(so), "stderr": se.decode("utf-8", "replace")[-300:]}
@@ -386,6 +389,33 @@ def main(argv):
     c.cov["traces_validated_against_impl"] += len(tcases)
     c.sample({"tool_case": tlines[3][:200]})
 
+    # ---------------- the stream-level model (one stream to the child, one back) vs the tool, incl. children
+    #     that break the line structure: one that swallows its 2nd line (the tool must fail) and one that adds
+    #     a line after the end of its input (foldfilter does not notice surplus output after the last line)
+    if drv is not None and hangs < 3 and fails < 12:
+        scases = [(w, k, d, ch, inp) for (w, k, d, ch, inp) in tcases[:60]]
+        for inp in (b"ab cd ef\nxyz\n", b"one\n", b"a b\n\nc d e\n", b""):
+            for ch in ("drop2", "extra"):
+                scases.append((3, False, [32], ch, inp))
+                scases.append((80, True, None, ch, inp))
+        sl = ["TS %d %d %s %s %s" % (w, 1 if k else 0, dl(d if d is not None else [58, 44, 32, 45, 46, 47]), ch, hx(inp)) for (w, k, d, ch, inp) in scases]
+        rc, sm, err = run_lines(drv, sl)
+        if len(sm) != len(sl):
+            c.broken.append("model driver died on stream cases: " + err[-200:])
+        else:
+            for (w, k, d, ch, inp), m, l in zip(scases, sm, sl):
+                argv = [tool, "-w", str(w)] + ([] if k else ["-s"]) + (["-d", "".join(chr(x) for x in d)] if d is not None else []) + [os.path.join(CHILDREN, "child_%s.py" % ch)]
+                st, so, se = run_limited(argv, stdin=inp, timeout=10, mem_mb=2048)
+                c.count(("stream", w, k, ch, inp), nontrivial=len(inp) > 0, bucket="tool-stream/" + ch)
+                agree = (m == "OK " + hx(so) and st == 0) or (m == "SHORT" and st not in (0, "timeout"))
+                if not agree:
+                    c.broken.append("correspondence foldfilter_stream model vs bin/foldfilter: case %r: model %s, tool status %s stdout %s" % (l[:160], m[:120], st, hx(so)[:120]))
+                    break
+                npieces_lines = len(inp.split(b"\n")) - 1
+                if ch == "drop2" and st == 0 and m == "SHORT":
+                    c.violation("line-structure-broken-unnoticed: child_drop2.py swallowed a line, foldfilter exit 0", {"op": "tool", "argv": argv[1:], "stdin": inp.decode("utf-8", "replace"), "status": st, "stdout_hex": hx(so)})
+            c.cov["traces_validated_against_impl"] += len(sl)
+
     # ---------------- long streams: the feeder->collector queue (util::UnboundedSingleQueue) works in pages of
     #     1023 entries; line counts around multiples of the page size, all at once and with stdin stalling
     #     right after a long line at a page boundary (the collector then catches up with the feeder there)
@@ -402,7 +432,11 @@ def main(argv):
                 ls.append(b"line %d" % i)
         return ls
 
+    stream_hangs = [hangs + (3 if fails >= 12 else 0)]      # a tool that already hung/crashed repeatedly is not fed 20 more long streams
+
     def check_stream(tag, ls, st, so, se, how):
+        if st == "timeout":
+            stream_hangs[0] += 1
         c.count((tag, len(ls)), nontrivial=True, bucket="long-stream/" + tag.split(":")[0])
         rep = {"op": "tool", "lines": len(ls), "status": st, "stdout_lines": so.count(b"\n"), "stderr": se.decode("utf-8", "replace")[-300:], "how": how}
         if st == "timeout":
@@ -421,6 +455,8 @@ def main(argv):
 
     idc = os.path.join(CHILDREN, "child_id.py")
     for n in ((1022, 1023, 1024, 2046, 2047, 3500) if quick else (1021, 1022, 1023, 1024, 1025, 2045, 2046, 2047, 2048, 3069, 3500, 5200)):
+        if stream_hangs[0] >= 3:
+            break
         ls = mklines(n)
         mode = ["-s"] if n % 2 else []
         st, so, se = run_limited([tool, "-w", "40"] + mode + [idc], stdin=b"".join(l + b"\n" for l in ls), timeout=60)
@@ -430,6 +466,8 @@ def main(argv):
     bigl = bigs.encode("utf-8")
     ls = mklines(30) + [bigl, b"", bigs[: len(bigs) // 2].encode("utf-8")] + mklines(30)
     for mode in ([], ["-s"]):
+        if stream_hangs[0] >= 3:
+            break
         st, so, se = run_limited([tool, "-w", "40"] + mode + [idc], stdin=b"".join(l + b"\n" for l in ls), timeout=120)
         check_stream("big-line" + (mode and ":-s" or ""), ls, st, so, se, "60 short lines around two lines of ~300 kB / 150 kB | foldfilter -w 40 %s child_id.py" % " ".join(mode))
     for n, cuts in ((2500, (1023, 2046)), (1100, (1022,)), (2100, (1024, 2047))):
@@ -441,6 +479,8 @@ def main(argv):
             prev = cpos
         parts.append(b"".join(enc[prev:]))
         for mode, child in (([], "cat"), (["-s"], idc)):
+            if stream_hangs[0] >= 3:
+                break
             st, so, se = run_staged([tool, "-w", "40"] + mode + [child], parts, pause=1.2, timeout=60)
             check_stream("stalled-stdin:%s%s" % (os.path.basename(child), mode and " -s" or ""), ls, st, so, se,
                          "%d lines, stdin pauses 1.2 s after line(s) %s | foldfilter -w 40 %s %s" % (n, list(cuts), " ".join(mode), os.path.basename(child)))
@@ -459,7 +499,11 @@ def main(argv):
             c.broken.append("model driver died on width option cases: " + err[-200:])
             wm = None
     for i, w in enumerate(wstrs):
+        if stream_hangs[0] >= 3:
+            break
         st, so, se = run_limited([tool, "-w", w, os.path.join(CHILDREN, "child_id.py")], stdin=winp, timeout=10, mem_mb=2048)
+        if st == "timeout":
+            stream_hangs[0] += 1
         valid = w.isdigit() and w.isascii() and int(w) < 2 ** 64
         c.count(("width-option", w), nontrivial=True, bucket="width-option/" + ("number" if valid else "not-a-number"))
         rep = {"op": "tool", "argv": ["-w", w, "child_id.py"], "stdin": winp.decode("utf-8"), "status": st, "stdout_hex": hx(so),
@@ -479,10 +523,44 @@ def main(argv):
                 c.broken.append("correspondence foldfilter_cli model vs bin/foldfilter -w %r: model %s, tool status %s stdout %s" % (w, m[:80], st, hx(so)[:80]))
     c.cov["traces_validated_against_impl"] += len(wstrs)
 
+    # ---------------- the delimiter option: the code points of a valid UTF-8 string; anything else a usage error
+    dstrs = [b" ", b":, -./", b"", u8("\u00b7 "), u8("\u3001\u00e9\U0001F600"), b"\xff", b"\xc3", b"a\x80", b"\xed\xa0\x80", b"\xf4\x90\x80\x80", b" \xc2"]
+    dinp = u8("ab cd\u00b7ef\u3001gh, ij\n\U0001F600 x\n")
+    dlines = ["TD 33 %d %s bracket %s" % (i % 2, hx(d), hx(dinp)) for i, d in enumerate(dstrs)]
+    dm = None
+    if drv is not None:
+        rc, dm, err = run_lines(drv, dlines)
+        if len(dm) != len(dlines):
+            c.broken.append("model driver died on delimiter option cases: " + err[-200:])
+            dm = None
+    for i, d in enumerate(dstrs):
+        if stream_hangs[0] >= 3:
+            break
+        argv = [tool, "-w", "3"] + ([] if i % 2 else ["-s"]) + ["-d", d, os.path.join(CHILDREN, "child_bracket.py")]
+        st, so, se = run_limited(argv, stdin=dinp, timeout=10, mem_mb=2048)
+        try:
+            d.decode("utf-8", "strict")
+            valid = True
+        except UnicodeDecodeError:
+            valid = False
+        c.count(("delims-option", d), nontrivial=True, bucket="delims-option/" + ("valid" if valid else "not-utf8"))
+        rep = {"op": "tool", "argv": ["-w", "3", "-d", repr(d), "child_bracket.py"], "stdin": dinp.decode("utf-8"), "status": st, "stdout_hex": hx(so),
+               "stderr": se.decode("utf-8", "replace")[-300:]}
+        if valid and st != 0:
+            c.violation("delims-option: -d %r is valid UTF-8 but foldfilter ended with status %s" % (d, st), rep)
+        if not valid and (st == 0 or st == "timeout" or (isinstance(st, int) and (st < 0 or st >= 128))):
+            c.violation("delims-option: -d %r is not valid UTF-8; expected a usage error, got status %s" % (d, st), rep)
+        if dm is not None:
+            m = dm[i]
+            agree = (m == "USAGE" and isinstance(st, int) and 0 < st < 128) or (m == "OK " + hx(so) and st == 0)
+            if not agree:
+                c.broken.append("correspondence foldfilter_cli2 model vs bin/foldfilter -d %r: model %s, tool status %s stdout %s" % (d, m[:80], st, hx(so)[:80]))
+    c.cov["traces_validated_against_impl"] += len(dstrs)
+
     return c.finish(level="proof",
                     rule="wrap_lines: every line over {a, e-acute, euro sign, U+1F600, space, middle dot} up to length %d x widths 1-6 x both -s modes x both delimiter preference orders; random lines of 1-4 byte code points (incl. CR, U+FFFD, U+10FFFF) with delimiter runs, widths around the line length, 7 delimiter lists incl. empty and multi-byte; malformed UTF-8 lines; tool level: bin/foldfilter x option sets x identity/bracketing/upper-casing children on multi-line inputs incl. empty lines, CR, no final newline. distinct = distinct non-empty inputs" % (5 if quick else 6),
                     assumptions=["lines shorter than 2^31 bytes (pos_first_delimiter is an int32_t)",
-                                 "valid UTF-8 = accepted by util::DecodeUTF8 (C12 proves that this is Unicode Table 3-7)",
+                                 "valid UTF-8 = accepted by the model of util::DecodeUTF8; every Unicode Table 3-7 byte string is (theorem C07_table37_is_valid, exhaustive sweeps over the regenerated scanner constants)",
                                  "the child is line-preserving: one answer line (without LF) per piece; pipes and threads are C05/C16",
                                  "the reader delivers the records of stdin (C02)"])
 
